@@ -18,7 +18,7 @@ def run(prog, rep):
     rep.rule("C06.3", "wiring: acquire -> sem_wait, release -> sem_post on sem->sem_hdl, TRUE exactly when the native returned 0")
     rep.rule("C06.4", "identity: every sem_open/sem_unlink names sem->platform_key, written only by the constructor from p_ipc_get_platform_key (name + fixed suffix)")
     u = prog.unit("psemaphore-posix.c")
-    ch = u.fn("pp_semaphore_create_handle")
+    ch = u.fn("pp_semaphore_create_handle").inlined()
     sp = ch.param_names()[0]
     KEY = "%s->platform_key" % sp
     opens = [(b, i, c) for (b, i, c) in ch.calls() if c.get("callee") == "sem_open"]
@@ -147,7 +147,7 @@ def run(prog, rep):
     rep.floor("C06.1", 5)
 
     # ---- C06.2 clean-up ------------------------------------------------------
-    cl = u.fn("pp_semaphore_clean_handle")
+    cl = u.fn("pp_semaphore_clean_handle").inlined()
     csp = cl.param_names()[0]
     closes, unlinks = [], []
 
@@ -180,7 +180,7 @@ def run(prog, rep):
         want = "%s->sem_hdl" % csp if c.get("callee") == "sem_close" else "%s->platform_key" % csp
         if guards.key(c["args"][0]) != want:
             rep.ob("C06.2", cl, "arg:" + c.get("callee"), False, "%s is called on %s" % (c.get("callee"), show(c["args"][0])), c)
-    to = u.fn("p_semaphore_take_ownership")
+    to = u.fn("p_semaphore_take_ownership").inlined()
     st_ = [n for (b, i, n) in to.nodes() if n["k"] == "asg" and strip_casts(n["l"])["k"] == "member" and strip_casts(n["l"])["field"] == "sem_created" and cv(n["r"]) == 1]
     rep.ob("C06.2", to, "take_ownership", len(st_) == 1, "take_ownership sets sem_created" if len(st_) == 1 else "take_ownership does not set sem_created", to.loc[0])
     # writers of sem_created across the unit
@@ -193,19 +193,19 @@ def run(prog, rep):
                     writers.add(f.name)
     okw = writers <= {"pp_semaphore_create_handle", "p_semaphore_take_ownership"}
     rep.ob("C06.2", ch, "owner:writers", okw, "sem_created is set TRUE only in the create path and take_ownership" if okw else "sem_created is also set in %s" % sorted(writers), ch.loc[0])
-    fr = u.fn("p_semaphore_free")
+    fr = u.fn("p_semaphore_free").inlined()
     cs = [c.get("callee") for (b, i, c) in fr.calls()]
     frees = [c for (b, i, c) in fr.calls() if c.get("callee") == "p_free"]
     fkeys = set(guards.key(c["args"][0]) for c in frees)
     fp = fr.param_names()[0]
-    okf = "pp_semaphore_clean_handle" in cs and {"%s->platform_key" % fp, fp} <= fkeys
+    okf = ("pp_semaphore_clean_handle" in cs or "sem_close" in cs) and {"%s->platform_key" % fp, fp} <= fkeys
     rep.ob("C06.2", fr, "free", okf, "free cleans the handle and releases the key string and the object" if okf else
            "p_semaphore_free misses clean-up steps (calls: %s, frees: %s)" % (sorted(set(cs)), sorted(fkeys)), fr.loc[0])
     rep.floor("C06.2", 7)
 
     # ---- C06.3 wiring --------------------------------------------------------
     for fname, native in (("p_semaphore_acquire", "sem_wait"), ("p_semaphore_release", "sem_post")):
-        fn = u.fn(fname)
+        fn = u.fn(fname).inlined()
         p0 = fn.param_names()[0]
         cs = [c for (b, i, c) in fn.calls() if c.get("callee") == native]
         okh = len(cs) == 1 and guards.key(cs[0]["args"][0]) == "%s->sem_hdl" % p0
@@ -239,7 +239,7 @@ def run(prog, rep):
         rep.ob("C06.3", fn, "result", okr, "TRUE exactly when %s returned 0" % native if okr else msg, fn.loc[0])
     # the wait is transparent to signals: an interrupted sem_wait is re-issued (same engine as C19.1)
     from plint.retry import check_retry
-    aq = u.fn("p_semaphore_acquire")
+    aq = u.fn("p_semaphore_acquire").inlined()
     for b, i, s_ in aq.stmts():
         for c in calls(s_):
             if c.get("callee") == "sem_wait":
@@ -253,7 +253,7 @@ def run(prog, rep):
     rep.floor("C06.3", 9)
 
     # ---- C06.4 identity --------------------------------------------------------
-    nw = u.fn("p_semaphore_new")
+    nw = u.fn("p_semaphore_new").inlined()
     writers = []
     for f in u.functions.values():
         for b, i, n in f.nodes():
